@@ -83,4 +83,12 @@ ClosedFormBands(fn, fp, np, nn, u, w, a) ==
       fnrCI == [j \in 1..n |-> RuleOfThree(fn[j], np, <<Rate6(u[j]), Rate6(u[j])>>, a)]
       fprCI == [j \in 1..n |-> RuleOfThree(fp[j], nn, <<Rate6(w[j]), Rate6(w[j])>>, a)]
   IN [fpr |-> Aggregate(fnr6, fnrCI, fprCI), fnr |-> Aggregate(fpr6, fprCI, fnrCI)]
+
+(* the same with arbitrary pointwise bootstrap intervals (a non-identity sampler): x6 / y6 are the     *)
+(* curve's FNR / FPR in fixed point, bootFnr / bootFpr the pointwise intervals before the rule of three *)
+BandsFromPointwise(fn, fp, np, nn, fnr6, fpr6, bootFnr, bootFpr, a) ==
+  LET n == Len(fn)
+      fnrCI == [j \in 1..n |-> RuleOfThree(fn[j], np, <<bootFnr[j][1], bootFnr[j][2]>>, a)]
+      fprCI == [j \in 1..n |-> RuleOfThree(fp[j], nn, <<bootFpr[j][1], bootFpr[j][2]>>, a)]
+  IN [fpr |-> Aggregate(fnr6, fnrCI, fprCI), fnr |-> Aggregate(fpr6, fprCI, fnrCI)]
 =============================================================================
